@@ -33,6 +33,7 @@ RULE = (
     " Every fifth pipeline replicate models two collections of different size jointly (larger first or last); each collection is an observation."
     " sorted_ties / decoys_first_ties: the coarse design with the file sorted by label (all targets first / all decoys first) and the confidence stage split so that a spectrum's target and decoy sit in different chunks."
     " reuse: models saved by one interpreter session re-score the same collection (string-valued key member) in another session with another hash seed; FDP judged as one cell."
+    " targets_first_one_chunk: the label-sorted coarse design in a single confidence chunk."
 )
 ASSUMPTIONS = [
     "statistical decision: exchangeability holds by construction of the simulator only; false-alarm probability per cell < 1e-8 under the property",
@@ -83,6 +84,10 @@ def plan(seed, tier):
     # string-valued member and the sessions run with different hash seeds
     for i in range(6 if tier == "quick" else 30):
         cases.append({"class": "reuse", "index": i, "learner": ["tree:proba", "knn:proba"][i % 2], "folds": 3, "reps": [0, 1, 2, 3], "cost": 30})
+    # targets first, everything in one chunk: ties are then ordered by the per-chunk sort alone
+    for i in range(4 if tier == "quick" else 24):
+        cases.append({"class": "targets_first_one_chunk", "index": i, "top": 1, "grid": [0.75, 1.5][i % 2], "pi1": [0.15, 0.4][i % 2],
+                      "order": "targets_first", "one_chunk": True, "reps": 60, "cost": 8})
     # the mirrored layout (all decoys first): ties then go to the decoys, which is conservative and must stay so
     for i in range(4 if tier == "quick" else 24):
         cases.append({"class": "decoys_first_ties", "index": i, "top": 1, "grid": [0.75, 1.5][i % 2], "pi1": [0.15, 0.4][i % 2],
@@ -90,7 +95,7 @@ def plan(seed, tier):
     return cases
 
 
-MANDATORY_CLASSES = ["pipeline", "small", "coarse", "sorted_ties", "decoys_first_ties", "reuse"]
+MANDATORY_CLASSES = ["pipeline", "small", "coarse", "sorted_ties", "decoys_first_ties", "targets_first_one_chunk", "reuse"]
 
 
 def simulate(rng, design, n_spectra, pi1, file_index=0, n_info=None, sep=None):
@@ -257,7 +262,9 @@ def run_coarse(case):
             p = psm.write_pin(tab, d / "c.pin")
             ds = pipeline.read_datasets([p])
             sizes = {"CONFIDENCE_CHUNK_SIZE": int(0.6 * len(s))} if r % 3 == 1 else {}
-            if case.get("order") == "targets_first":
+            if case.get("one_chunk"):
+                sizes = {}
+            elif case.get("order") == "targets_first":
                 sizes = {"CONFIDENCE_CHUNK_SIZE": int(tab["truth"]["is_target"].sum())}   # targets in chunk 0, decoys in chunk 1
             elif case.get("order") == "decoys_first":
                 sizes = {"CONFIDENCE_CHUNK_SIZE": int((~tab["truth"]["is_target"]).sum())}
@@ -346,7 +353,7 @@ def run_reuse(case):
 def run_case(case):
     if case["class"] == "reuse":
         return run_reuse(case)
-    return {"pipeline": run_pipeline, "small": run_small, "coarse": run_coarse, "sorted_ties": run_coarse, "decoys_first_ties": run_coarse}[case["class"]](case)
+    return {"pipeline": run_pipeline, "small": run_small, "coarse": run_coarse, "sorted_ties": run_coarse, "decoys_first_ties": run_coarse, "targets_first_one_chunk": run_coarse}[case["class"]](case)
 
 
 def finalize(cases, results, tier):
@@ -356,12 +363,12 @@ def finalize(cases, results, tier):
         c = bycase.get(r.get("id"))
         if not c or not r.get("obs"):
             continue
-        key = ("small",) if c["class"] == "small" else ("reuse", "saved_models_other_session") if c["class"] == "reuse" else (c["class"], f"levels={2 * c['top'] + 1}", f"grid={c['grid']}", f"pi1={c['pi1']}") if c["class"] in ("coarse", "sorted_ties", "decoys_first_ties") else (c["design"], c["learner"], c["folds"])
+        key = ("small",) if c["class"] == "small" else ("reuse", "saved_models_other_session") if c["class"] == "reuse" else (c["class"], f"levels={2 * c['top'] + 1}", f"grid={c['grid']}", f"pi1={c['pi1']}") if c["class"] in ("coarse", "sorted_ties", "decoys_first_ties", "targets_first_one_chunk") else (c["design"], c["learner"], c["folds"])
         groups.setdefault(key, []).extend(r["obs"])
     table = []
     out = []
     for key, obs in sorted(groups.items()):
-        direct = key[0] in ("coarse", "sorted_ties", "decoys_first_ties")   # no learning involved: no slack for the liberal bias of rescoring
+        direct = key[0] in ("coarse", "sorted_ties", "decoys_first_ties", "targets_first_one_chunk")   # no learning involved: no slack for the liberal bias of rescoring
         for lvl in ("psms", "peptides"):
             for a in (ALPHAS_COARSE if direct else ALPHAS):
                 fdps = [o[lvl][str(a)][0] / max(1, o[lvl][str(a)][1]) for o in obs if lvl in o and str(a) in o[lvl]]
@@ -380,7 +387,7 @@ def finalize(cases, results, tier):
                 table.append({"cell": "/".join(map(str, key)), "level": lvl, "alpha": a, "R": R, "mean_fdp": round(m, 4),
                               "se": round(se, 4), "mean_accepted": round(acc, 1), "verdict": verdict})
                 if verdict == "violated":
-                    rr = Result({"id": None, "class": key[0] if key[0] in ("small", "coarse", "sorted_ties", "decoys_first_ties", "reuse") else "pipeline"}, key="/".join(map(str, key)))
+                    rr = Result({"id": None, "class": key[0] if key[0] in ("small", "coarse", "sorted_ties", "decoys_first_ties", "targets_first_one_chunk", "reuse") else "pipeline"}, key="/".join(map(str, key)))
                     rr["evals"] = 0
                     rr.violate("fdr_not_controlled", f"{'/'.join(map(str, key))}/{lvl}/alpha={a}", mean_fdp=m, se=se, R=R,
                                alpha=a, mean_accepted=acc)
